@@ -919,6 +919,12 @@ func ruleTextIdentity(p *Prog, l *Ledger, tier string) {
 			l.Prove(rule, spec.fn, key, "", spec.fn+" "+what)
 			continue
 		}
+		if !spec.nonEmp {
+			if ok, what := byteAppendConcat(f); ok {
+				l.Prove(rule, spec.fn, key, "", spec.fn+" "+what)
+				continue
+			}
+		}
 		for _, b := range f.Blocks {
 			r, ok := b.Instrs[len(b.Instrs)-1].(*ssa.Return)
 			if !ok {
@@ -926,6 +932,9 @@ func ruleTextIdentity(p *Prog, l *Ledger, tier string) {
 			}
 			c, ok := r.Results[0].(*ssa.Call)
 			if !ok || calleeName(&c.Call) != "strings.Join" {
+				if len(r.Results) == 1 && (singleElementFastPath(r) || emptyListFastPath(r)) {
+					continue // what Join gives for one element and for none
+				}
 				good, why = false, "it no longer returns strings.Join(…)"
 				continue
 			}
@@ -2016,4 +2025,103 @@ func builderJoinTrimSuffix(f *ssa.Function, needSep bool, isBuilderCall func(ssa
 		return false, ""
 	}
 	return true, "writes every line followed by the separator and returns strings.TrimSuffix(b.String(), sep) with that separator: strings.Join(lines, sep)"
+}
+
+// emptyListFastPath: r returns "" under a dominating test len(x) == 0: the join of no element.
+func emptyListFastPath(r *ssa.Return) bool {
+	if cs, ok := constStr(r.Results[0]); !ok || cs != "" {
+		return false
+	}
+	for _, dc := range dominatingConds(r.Block()) {
+		bo, ok := dc.cond.(*ssa.BinOp)
+		if !ok || bo.Op != token.EQL || !dc.taken {
+			continue
+		}
+		if z, ok := constInt(bo.Y); !ok || z != 0 {
+			continue
+		}
+		if c, ok := bo.X.(*ssa.Call); ok {
+			if bi, ok := c.Call.Value.(*ssa.Builtin); ok && bi.Name() == "len" {
+				return true
+			}
+		}
+	}
+	return false
+}
+
+// byteAppendConcat: f returns string(b) where b starts as an empty []byte (make([]byte, 0, n)) and every trip of
+// one loop over the elements does b = append(b, text...) in a block that dominates the back edges: the concatenation
+// of the texts, what strings.Join(texts, "") gives.  Returns of "" for no element and of the only element's text
+// (fast paths) are admitted next to it.
+func byteAppendConcat(f *ssa.Function) (bool, string) {
+	var conv *ssa.Convert
+	for _, b := range f.Blocks {
+		r, ok := b.Instrs[len(b.Instrs)-1].(*ssa.Return)
+		if !ok {
+			continue
+		}
+		if len(r.Results) != 1 {
+			return false, ""
+		}
+		cv, ok := r.Results[0].(*ssa.Convert)
+		if !ok {
+			if singleElementFastPath(r) || emptyListFastPath(r) {
+				continue
+			}
+			return false, ""
+		}
+		if conv != nil || !isStringT(cv.Type()) {
+			return false, ""
+		}
+		conv = cv
+	}
+	if conv == nil {
+		return false, ""
+	}
+	ph, ok := conv.X.(*ssa.Phi)
+	if !ok {
+		return false, ""
+	}
+	var li *loopInfo
+	for _, lp := range loopsOf(f) {
+		if lp.header == ph.Block() {
+			li = lp
+		}
+	}
+	if li == nil {
+		return false, ""
+	}
+	nInit, nBack := 0, 0
+	for k, e := range ph.Edges {
+		pred := ph.Block().Preds[k]
+		if li.blocks[pred] {
+			c, ok := e.(*ssa.Call)
+			if !ok {
+				return false, ""
+			}
+			bi, ok := c.Call.Value.(*ssa.Builtin)
+			if !ok || bi.Name() != "append" || len(c.Call.Args) != 2 || c.Call.Args[0] != ssa.Value(ph) || !isStringT(c.Call.Args[1].Type()) {
+				return false, ""
+			}
+			for _, lt := range li.latch {
+				if !c.Block().Dominates(lt) {
+					return false, ""
+				}
+			}
+			nBack++
+			continue
+		}
+		mk, ok := e.(*ssa.MakeSlice)
+		if !ok {
+			return false, ""
+		}
+		if z, ok := constInt(mk.Len); !ok || z != 0 {
+			return false, ""
+		}
+		nInit++
+	}
+	if nInit == 0 || nBack == 0 {
+		return false, ""
+	}
+	return true, "appends the text of every element to an empty byte slice in one loop and returns it as a string: the concatenation strings.Join(texts, \"\") gives"
 }
